@@ -6,6 +6,7 @@ import (
 	"math/big"
 	"os"
 	"reflect"
+	"runtime"
 	"strings"
 
 	ike "github.com/free5gc/ike"
@@ -121,7 +122,12 @@ var noiseKeyRaw = libsa.Raw{Suite: ref.Suite{EncKeyLen: 16, Integ: ref.HSHA1}, P
 func noise(seed uint64) {
 	r := core.NewRng(seed, 0x6e6f697365)
 	core.Try(func() {
-		switch r.Intn(10) {
+		switch r.Intn(11) {
+		case 9: // a garbage collection (empties sync.Pools, runs finalizers, may move nothing but changes timing)
+			if r.Chance(1, 8) {
+				runtime.GC()
+				core.GlobalCount("garbage_collections_forced_in_between")
+			}
 		case 0: // encode another message
 			if lm, err := bridge.BuildMsg(gen.Msg(r, gen.Opt{MaxPayloads: 3})); err == nil {
 				_, _ = lm.Encode()
